@@ -347,6 +347,49 @@ func c03Located() [][4]string { // program, line, col, message substring
 			add("func g a:num\n    print a\nend\ng 1 @2\n", `"g" takes 1 argument`)
 		}
 	}
+	// a wrong type at the j-th of k arguments, for every j: the message names the position in words
+	// (spec of an English ordinal: 11th 12th 13th, otherwise 1st 2nd 3rd by the last digit, otherwise th)
+	ordinal := func(n int) string {
+		suf := "th"
+		if n%100 < 11 || n%100 > 13 {
+			switch n % 10 {
+			case 1:
+				suf = "st"
+			case 2:
+				suf = "nd"
+			case 3:
+				suf = "rd"
+			}
+		}
+		return fmt.Sprint(n) + suf
+	}
+	for _, kj := range [][2]int{{24, 0}, {113, 101}, {123, 111}} {
+		k := kj[0]
+		decl, body := "func g", "    print"
+		for i := 1; i <= k; i++ {
+			decl += fmt.Sprintf(" a%d:num", i)
+			body += fmt.Sprintf(" a%d", i)
+		}
+		for j := kj[1]; j <= k; j++ {
+			if j == 0 {
+				continue
+			}
+			call, col := "g", 0
+			for i := 1; i <= k; i++ {
+				if i == j {
+					col = len(call) + 2
+					call += " \"s\""
+				} else {
+					call += " 1"
+				}
+			}
+			out = append(out, [4]string{decl + "\n" + body + "\nend\n" + call + "\n", "4", fmt.Sprint(col), `"g" takes ` + ordinal(j) + " argument of type num"})
+		}
+	}
+	for _, call := range []string{"ellipse @\"s\" 2 3 4 5", "ellipse 1 @\"s\" 3 4 5", "ellipse 1 2 @true 4 5", "ellipse 1 2 3 @[4] 5", "ellipse 1 2 3 4 @{a:5}", "hsl 1 2 3 @\"4\""} {
+		k := strings.Index(call, "@")
+		out = append(out, [4]string{strings.Replace(call, "@", "", 1) + "\n", "1", fmt.Sprint(k + 1), "takes variadic arguments of type num"})
+	}
 	out = append(out, [4]string{"print 1\nbreak\n", "2", "1", "break is not in a loop"})
 	out = append(out, [4]string{"func f:num\n    print 1\nend\nprint (f)\n", "3", "1", "missing return"})
 	out = append(out, [4]string{"func f\n    return\n    print 1\nend\nf\n", "3", "5", "unreachable code"})
